@@ -6,7 +6,7 @@
 From Coq Require Import List Bool Arith ZArith.
 From QV Require Import Base.Mat Base.Zi C03.ModelSamples C03.ModelProbs C03.ModelCollapse C03.ModelResult
      C03.ProofsSamples C03.ProofsProbs C03.ProofsProbsDM C03.ProofsCollapse C03.ProofsCollapseDM
-     C03.ProofsResult.
+     C03.ProofsResult C03.ProofsCheck.
 Import ListNotations.
 
 (* calculate_probabilities = Born marginal sum_{x : x|qs = b} |psi_x|^2 in the requested order.
@@ -141,3 +141,15 @@ Example collapse_recorded_order_partial_nonvacuous :
   asc 0 [0; 2] = true /\ (forall q, In q [0; 2] -> q < 3) /\
   recorded (m_apply 3 [0; 2] 2 [zi0; zi0; zi0; zi0; zi1; zi0; zi0; zi0]) = [true; false].
 Proof. split; [reflexivity | split; [intros q [<-|[<-|[]]]; auto | reflexivity]]. Qed.
+
+(* the decidable oracle that harness/c03.py and harness/c14.py evaluate (by vm_compute) on the
+   outputs of the REAL implementation is sound for the specification *)
+Theorem explainsb_sound :
+  forall cfg w sh o x, explainsb cfg w sh o x = true -> explains cfg w sh o x.
+Proof. exact explainsb_sound_thm. Qed.
+Print Assumptions explainsb_sound.
+
+Theorem shots_okb_sound :
+  forall cfg w ns sh, shots_okb cfg w ns sh = true -> shots_ok cfg w ns sh.
+Proof. exact shots_okb_sound_thm. Qed.
+Print Assumptions shots_okb_sound.
